@@ -11,7 +11,7 @@ from drive import Result
 RULE = ("Hypothesis generates lattice models (N<=5 quick, <=6 thorough), beta in [0.1,100], operator index quadruples (a,b,c,d) for "
         "A=c+_a c_b, B=c+_c c_d (density-like, spin-flip-like and hopping-like), bosonic Matsubara numbers from {0,+-1,+-2,+-17,...}, "
         "a tau grid incl. both ends, and one of the three ways of supplying the disconnected part (or none; the value overload also with "
-        "arbitrary complex numbers).  pomerol's chi_AB(iW_n) and chi_AB(tau) are compared with the numpy Lehmann reference incl. the "
+        "arbitrary complex numbers; the EnsembleAverage overload with fresh objects and with objects the caller has already prepared).  pomerol's chi_AB(iW_n) and chi_AB(tau) are compared with the numpy Lehmann reference incl. the "
         "beta*delta_{n,0} degenerate term (documented-drop bound); with subtraction the result must differ from the unsubtracted library "
         "value by exactly beta<A><B> at n=0, 0 at n!=0 and <A><B> at every tau.  Non-trivial: the component is non-zero and (A or B is "
         "off-diagonal, or a degenerate pair contributes at n=0, or subtraction is on).")
@@ -21,8 +21,8 @@ CONFIG = {
     "quick": {"flavours": ["real", "complex"], "shards": 8, "examples": 150, "min_nontrivial": 100, "budget_s": 100},
     "thorough": {"flavours": ["real", "complex"], "shards": 16, "examples": 2500, "min_nontrivial": 2000, "budget_s": 3000},
 }
-REQUIRED_CLASSES = {"quick": ["n=0", "n!=0", "sub-1", "sub-2", "sub-3", "offdiag-operator", "zero-pole", "complex"],
-                    "thorough": ["n=0", "n!=0", "sub-1", "sub-2", "sub-3", "offdiag-operator", "zero-pole", "complex"]}
+REQUIRED_CLASSES = {"quick": ["n=0", "n!=0", "sub-1", "sub-2", "sub-3", "sub-4", "offdiag-operator", "zero-pole", "complex"],
+                    "thorough": ["n=0", "n!=0", "sub-1", "sub-2", "sub-3", "sub-4", "offdiag-operator", "zero-pole", "complex"]}
 TAUF = [0.0, 1e-9, 0.1, 0.25, 0.5, 0.8, 1.0 - 1e-9, 1.0]
 
 
@@ -36,7 +36,7 @@ def strategy_(draw, tier):
                      st.tuples(ix, ix, ix, ix))
     comps = draw(st.lists(quad, min_size=1, max_size=3, unique=True))
     ns = draw(st.lists(st.sampled_from([0, 0, 1, -1, 2, -2, 17, -17, 1000]), min_size=1, max_size=4, unique=True))
-    sub = draw(st.sampled_from([0, 1, 2, 3]))
+    sub = draw(st.sampled_from([0, 1, 2, 3, 4]))
     ab = draw(st.tuples(gen.amp(), gen.amp(), gen.amp(), gen.amp()))
     return {"model": mdl, "comps": [list(c) for c in comps], "n": ns, "sub": sub, "ab": list(ab)}
 
@@ -51,7 +51,7 @@ def execute(case, ctx):
     taus = [f * beta for f in TAUF]
     sel = "n %d %s tau %d %s" % (len(ns), " ".join(map(str, ns)), len(taus), " ".join(repr(t) for t in taus))
     aa = complex(case["ab"][0], case["ab"][1]); bb = complex(case["ab"][2], case["ab"][3])
-    subs = {0: "", 1: "sub 1", 2: "sub 2 %r %r %r %r" % (aa.real, aa.imag, bb.real, bb.imag), 3: "sub 3"}[sub]
+    subs = {0: "", 1: "sub 1", 2: "sub 2 %r %r %r %r" % (aa.real, aa.imag, bb.real, bb.imag), 3: "sub 3", 4: "sub 4"}[sub]
     q = []
     for k, (a, b, c, d) in enumerate(case["comps"]):
         q.append((("u", k), "susc %d %d %d %d %s" % (a, b, c, d, sel)))
